@@ -1,7 +1,8 @@
 ---- MODULE ConfigStoreTrace ----
 (* Trace validation of the real managers against ConfigStore (C12, binding B1+B2).
    Events written by harness/cmd/c12 (one history after the other, all names of the universe in every obs):
-     new{fam}                          fresh managers, empty effective configuration (TraceReset)
+     new{cm, rm}                       fresh managers, empty effective configuration (TraceReset); cm / rm = clusters / routers are
+                                       dumped "inline" or into a clusters_configs / router_configs directory ("dir")
      op{kind, <args>, err [,panic]]    one runtime update applied to the real code, err = it returned an error
      obs{lr, fr, lc, fc, ll, fl}       after the op: what the LIVE objects answer (lr lc ll) and what objects FRESHLY
                                        built from the dumped configuration answer (fr fc fl)
@@ -18,14 +19,19 @@ S(seq) == { seq[i] : i \in DOMAIN seq }
 HM(seq) == [ x \in { seq[i].h : i \in DOMAIN seq } |-> seq[CHOOSE i \in DOMAIN seq : seq[i].h = x].a ]
 Locs(seq) == [ i \in DOMAIN seq |-> HM(seq[i]) ]
 
-TraceInit == l = 1 /\ Init
+TraceInit == l = 1 /\ InitWith("inline", "inline")
 
 Reset == /\ lR' = [r \in Routers |-> AbsentR] /\ sR' = [r \in Routers |-> AbsentR]
          /\ lC' = [c \in Clusters |-> AbsentC] /\ sC' = [c \in Clusters |-> AbsentC]
          /\ lL' = [n \in Listeners |-> AbsentL] /\ sL' = [n \in Listeners |-> AbsentL]
+         /\ cDir' = NoFiles /\ rDir' = [r \in Routers |-> NoFiles]
          /\ err' = FALSE /\ pre' = pre /\ hist' = hist
 
-TNew == IsEvent("new") /\ Reset
+(* new{cm, rm}: storage mode of the dumped clusters / routers in this history *)
+TNew == IsEvent("new") /\ Reset /\ cMode' = Ev.cm /\ rMode' = Ev.rm
+
+(* obs only lists the names of the history's universe; a name that is live must be among them *)
+Seen(f, x) == x \in DOMAIN f
 
 Apply(e) ==
   CASE e.kind = "routers"      -> DoRouters(e.r, e.vhs)
@@ -44,6 +50,7 @@ Apply(e) ==
 
 TOp == /\ IsEvent("op")
        /\ Apply(Ev)
+       /\ Dump               \* the driver dumps the effective configuration after every operation
        /\ Expect(~Has(Ev, "panic"), "operation-panicked")
        /\ Expect(Ev.err = err', "error-result")
        /\ pre' = pre /\ hist' = hist
@@ -64,27 +71,34 @@ SupportOk(o) ==   \* host selection only returns members; round robin returns ev
 
 TObs == /\ IsEvent("obs")
         /\ \A r \in Routers :
-             /\ Expect(Ev.lr[r] = ViewR(lR[r]), "router-live-differs-from-spec")
-             /\ Expect(Ev.fr[r] = ViewR(BuildR(sR[r])), "router-dump-differs-from-spec")
-             /\ Expect(Ev.lr[r] = Ev.fr[r], "router-live-differs-from-dump")
+             IF Seen(Ev.lr, r)
+             THEN /\ Expect(Ev.lr[r] = ViewR(lR[r]), "router-live-differs-from-spec")
+                  /\ Expect(Ev.fr[r] = ViewR(BuildR(RebuildR(r))), "router-dump-differs-from-spec")
+                  /\ Expect(Ev.lr[r] = Ev.fr[r], "router-live-differs-from-dump")
+             ELSE Expect(lR[r].st = "absent", "observation-misses-a-live-object")
         /\ \A c \in Clusters :
-             /\ Expect(ClusterOk(Ev.lc[c], lC[c]), "cluster-live-differs-from-spec")
-             /\ Expect(ClusterOk(Ev.fc[c], BuildC(sC[c])), "cluster-dump-differs-from-spec")
-             /\ Expect(AttrsOk(Ev.lc[c], lC[c]), "host-attributes-live-differ-from-last-update")
-             /\ Expect(AttrsOk(Ev.fc[c], BuildC(sC[c])), "host-attributes-dump-differ-from-last-update")
-             /\ Expect(Ev.lc[c].st = Ev.fc[c].st /\ Ev.lc[c].lb = Ev.fc[c].lb /\ S(Ev.lc[c].hosts) = S(Ev.fc[c].hosts),
-                       "cluster-live-differs-from-dump")
-             /\ Expect(SupportOk(Ev.lc[c]) /\ SupportOk(Ev.fc[c]), "host-selection-outside-host-set")
+             IF Seen(Ev.lc, c)
+             THEN /\ Expect(ClusterOk(Ev.lc[c], lC[c]), "cluster-live-differs-from-spec")
+                  /\ Expect(ClusterOk(Ev.fc[c], BuildC(RebuildC(c))), "cluster-dump-differs-from-spec")
+                  /\ Expect(AttrsOk(Ev.lc[c], lC[c]), "host-attributes-live-differ-from-last-update")
+                  /\ Expect(AttrsOk(Ev.fc[c], BuildC(RebuildC(c))), "host-attributes-dump-differ-from-last-update")
+                  /\ Expect(Ev.lc[c].st = Ev.fc[c].st /\ Ev.lc[c].lb = Ev.fc[c].lb /\ S(Ev.lc[c].hosts) = S(Ev.fc[c].hosts),
+                            "cluster-live-differs-from-dump")
+                  /\ Expect(SupportOk(Ev.lc[c]) /\ SupportOk(Ev.fc[c]), "host-selection-outside-host-set")
+             ELSE Expect(lC[c].st = "absent", "observation-misses-a-live-object")
         /\ \A n \in Listeners :
-             /\ Expect(Ev.ll[n] = lL[n], "listener-live-differs-from-spec")
-             /\ Expect(Ev.fl[n] = sL[n], "listener-dump-differs-from-spec")
-             /\ Expect(Ev.ll[n] = Ev.fl[n], "listener-live-differs-from-dump")
+             IF Seen(Ev.ll, n)
+             THEN /\ Expect(Ev.ll[n] = lL[n], "listener-live-differs-from-spec")
+                  /\ Expect(Ev.fl[n] = sL[n], "listener-dump-differs-from-spec")
+                  /\ Expect(Ev.ll[n] = Ev.fl[n], "listener-live-differs-from-dump")
+             ELSE Expect(lL[n] = AbsentL, "observation-misses-a-live-object")
         /\ UNCHANGED vars
 
 TRestart == /\ IsEvent("restart")
-            /\ \A r \in Routers : Expect(Ev.fr[r] = ViewR(lR[r]), "router-after-restart-differs")
-            /\ \A c \in Clusters : Expect(ClusterOk(Ev.fc[c], lC[c]) /\ AttrsOk(Ev.fc[c], lC[c]) /\ SupportOk(Ev.fc[c]), "cluster-after-restart-differs")
-            /\ \A n \in Listeners : Expect(Ev.fl[n] = lL[n], "listener-after-restart-differs")
+            /\ \A r \in Routers : Seen(Ev.fr, r) => Expect(Ev.fr[r] = ViewR(lR[r]), "router-after-restart-differs")
+            /\ \A c \in Clusters : Seen(Ev.fc, c) =>
+                  Expect(ClusterOk(Ev.fc[c], lC[c]) /\ AttrsOk(Ev.fc[c], lC[c]) /\ SupportOk(Ev.fc[c]), "cluster-after-restart-differs")
+            /\ \A n \in Listeners : Seen(Ev.fl, n) => Expect(Ev.fl[n] = lL[n], "listener-after-restart-differs")
             /\ UNCHANGED vars
 
 TraceNext == TNew \/ TOp \/ TObs \/ TRestart
